@@ -110,6 +110,18 @@ class ScriptedNetworkStack(BaseNetworkStack):
                 goodness_time=f.get("goodness_time", 0),
                 bell_state=bell,
             )
+        if f.get("as_qlink10"):
+            import qlink_interface as ql
+            from netqasm.qlink_compat import BellState as NQBell
+
+            b_ = f.get("bell_state", 0)
+            b_ = b_.value if hasattr(b_, "value") else b_
+            return ql.ResMeasureDirectly(
+                create_id=f.get("create_id", 0), directionality_flag=f.get("directionality_flag", direction), sequence_number=f.get("sequence_number", 0),
+                purpose_id=f["purpose_id"], remote_node_id=f["remote_node_id"], goodness=f.get("goodness", 0),
+                bell_state=b_ if f.get("qlink10_int") else ql.BellState[NQBell(b_).name], measurement_outcome=f.get("measurement_outcome", 0),
+                measurement_basis=ql.MeasurementBasis(f.get("measurement_basis", 0)),
+            )
         return LinkLayerOKTypeM(
             type=f.get("type", ReturnType.OK_M),
             create_id=f.get("create_id", 0),
